@@ -14,6 +14,7 @@ fn main() {
     let out = match kind {
         "diagnose" => diagnose(&sc),
         "line_index" => line_index(&sc),
+        "config_load" => config_load(&sc),
         _ => json!({"error": format!("unknown scenario kind {kind}")}),
     };
     println!("{}", out);
@@ -99,4 +100,59 @@ fn line_index(sc: &Value) -> Value {
         }
     }
     json!({"line_count": li.line_count(), "results": outs})
+}
+
+
+/// paths: [string] expanded through Emmyrc::pre_process_emmyrc (as library, package, root, ignoreDir, resource path);
+/// jsons: [string] each written to a temporary .emmyrc.json / .luarc.json and loaded with load_configs.
+/// Every call runs under catch_unwind; the inputs that panic are reported.
+fn config_load(sc: &Value) -> Value {
+    use emmylua_code_analysis::load_configs;
+    use std::panic::{AssertUnwindSafe, catch_unwind};
+    std::panic::set_hook(Box::new(|_| {}));
+    let mut panics = vec![];
+    let root = std::env::temp_dir().join(format!("vreplay_cfg_{}", std::process::id()));
+    let _ = std::fs::create_dir_all(&root);
+    for p in sc["paths"].as_array().cloned().unwrap_or_default() {
+        let Some(path) = p.as_str() else { continue };
+        let r = catch_unwind(AssertUnwindSafe(|| {
+            let cfg = json!({"workspace": {"library": [path, {"path": path, "ignoreDir": [path]}], "workspaceRoots": [path],
+                              "ignoreDir": [path], "packages": [path]}, "resource": {"paths": [path]}});
+            let mut base = serde_json::to_value(Emmyrc::default()).expect("default emmyrc");
+            merge(&mut base, &cfg);
+            let mut emmyrc: Emmyrc = serde_json::from_value(base).expect("emmyrc");
+            emmyrc.pre_process_emmyrc(&root);
+        }));
+        if r.is_err() {
+            panics.push(json!({"kind": "path", "input": path}));
+        }
+    }
+    for (i, j) in sc["jsons"].as_array().cloned().unwrap_or_default().iter().enumerate() {
+        let Some(text) = j.as_str() else { continue };
+        for name in [".emmyrc.json", ".luarc.json"] {
+            let dir = root.join(format!("j{}", i));
+            let _ = std::fs::create_dir_all(&dir);
+            let file = dir.join(name);
+            let _ = std::fs::write(&file, text);
+            let f2 = file.clone();
+            let r = catch_unwind(AssertUnwindSafe(|| {
+                let mut e = load_configs(vec![f2], None);
+                e.pre_process_emmyrc(&root);
+            }));
+            if r.is_err() {
+                panics.push(json!({"kind": name, "input": text}));
+            }
+            let partial: Option<Value> = serde_json::from_str(text).ok();
+            if let Some(v) = partial {
+                let r = catch_unwind(AssertUnwindSafe(|| {
+                    let _ = load_configs(vec![], Some(vec![v]));
+                }));
+                if r.is_err() {
+                    panics.push(json!({"kind": "partial", "input": text}));
+                }
+            }
+        }
+    }
+    let _ = std::fs::remove_dir_all(&root);
+    json!({"panicked": !panics.is_empty(), "panics": panics})
 }
